@@ -6,7 +6,11 @@ use chrono_mc::lattice::*;
 use num_traits::FromPrimitive;
 use serde_json::json;
 use std::collections::BTreeSet;
+use stateright::{Checker, Model, Property};
+use std::sync::atomic::{AtomicU64, Ordering};
 use std::time::Instant;
+
+static DFS_ITER_STATES: AtomicU64 = AtomicU64::new(0);
 
 const CLASSES: &[&str] = &["conv_accept", "conv_reject", "alias_reject", "parse_accept", "parse_reject", "set_op", "iter_seq", "iter_wrap", "iter_mixed_ends"];
 const CONV_OK: usize = 0;
@@ -430,10 +434,65 @@ fn iterators(acc: &mut Acc) {
             let n = order.len();
             iter_dfs(acc, sa.iter(WD[st]), &mut order, 0, n, 0, &mut path, &mut seen);
             acc.states += seen.len() as u64;
+            DFS_ITER_STATES.fetch_add(seen.len() as u64, Ordering::Relaxed);
             if a == 0b0101011 && st == 3 {
                 acc.sample(|| format!("set {:?} from {:?}: cyclic order {:?}; all next/next_back sequences explored to two consecutive None", sa, WD[st], order));
             }
         }
+    }
+}
+
+
+// ---- second engine: the same iterator transition system as a stateright model (explicit-state BFS) ----------
+#[derive(Clone, Debug, PartialEq, Eq, Hash)]
+struct ItState {
+    init: u8,
+    start: u8,
+    remaining: u8,
+    nones: u8,
+    agrees: bool,
+}
+#[derive(Clone, Debug, PartialEq, Eq)]
+enum ItAct {
+    Next,
+    NextBack,
+}
+struct ItModel;
+impl Model for ItModel {
+    type State = ItState;
+    type Action = ItAct;
+    fn init_states(&self) -> Vec<ItState> {
+        let mut v = vec![];
+        for a in 0..128u8 {
+            for st in 0..7u8 {
+                v.push(ItState { init: a, start: st, remaining: a, nones: 0, agrees: true });
+            }
+        }
+        v
+    }
+    fn actions(&self, s: &ItState, out: &mut Vec<ItAct>) {
+        if s.nones < 2 && s.agrees {
+            out.push(ItAct::Next);
+            out.push(ItAct::NextBack);
+        }
+    }
+    fn next_state(&self, s: &ItState, a: ItAct) -> Option<ItState> {
+        // the real iterator over the remaining set with the same start day is exactly the real iterator's state
+        let mut it = mk_set(s.remaining).iter(WD[s.start as usize]);
+        let order: Vec<usize> = (0..7).map(|k| (s.start as usize + k) % 7).filter(|i| s.remaining >> i & 1 == 1).collect();
+        let (got, want) = match a {
+            ItAct::Next => (it.next(), order.first().copied()),
+            ItAct::NextBack => (it.next_back(), order.last().copied()),
+        };
+        let agrees = got.map(wd_index) == want && it.len() == order.len().saturating_sub(1);
+        let remaining = match got {
+            Some(d) => s.remaining & !(1 << wd_index(d)),
+            None => s.remaining,
+        };
+        Some(ItState { init: s.init, start: s.start, remaining, nones: if got.is_some() { 0 } else { s.nones + 1 }, agrees })
+    }
+    fn properties(&self) -> Vec<Property<Self>> {
+        vec![Property::<Self>::always("iterator agrees with the reference deque", |_, s| s.agrees)]
     }
 }
 
@@ -458,6 +517,18 @@ fn main() {
         _ => iterators(acc),
     });
     let _ = (mo_index(Month::May), lat_i64().len());
-    let extra = Extra { bounds: json!({"weekdays": 7, "months": 12, "sets": 128, "set_pairs": 128*128, "iterator_initial_states": 128*7, "max_string_len_enumerated": if tier == Tier::Thorough {4} else {3}}), exhaustive: true, more: vec![] };
+    // cross-check of the explorer: stateright must reach the same number of states and find no counterexample
+    let mut acc = acc;
+    let mut sr_states = 0u64;
+    if only.is_none() {
+        let checker = ItModel.checker().threads(8).spawn_bfs().join();
+        sr_states = checker.unique_state_count() as u64;
+        if let Some(path) = checker.discovery("iterator agrees with the reference deque") {
+            acc.violation("WeekdaySetIter:stateright", format!("stateright counterexample: {:?}", path.into_actions()), "the iterator agrees with the reference deque on every path".into(), "a path on which it does not".into());
+        } else if sr_states != DFS_ITER_STATES.load(Ordering::Relaxed) && acc.viol.is_empty() {
+            machinery(&format!("explorer self-check failed: DFS visited {} iterator states, stateright BFS {}", DFS_ITER_STATES.load(Ordering::Relaxed), sr_states));
+        }
+    }
+    let extra = Extra { bounds: json!({"weekdays": 7, "months": 12, "sets": 128, "set_pairs": 128*128, "iterator_initial_states": 128*7, "max_string_len_enumerated": if tier == Tier::Thorough {4} else {3}}), exhaustive: true, more: vec![("second_engine".into(), json!({"engine": "stateright 0.31 spawn_bfs", "model": "WeekdaySetIter transition system (state = initial set, start day, remaining set, trailing Nones; actions next / next_back executed by the real iterator)", "unique_states": sr_states, "dfs_explorer_states": DFS_ITER_STATES.load(Ordering::Relaxed), "counts_equal": sr_states == DFS_ITER_STATES.load(Ordering::Relaxed)}))] };
     finish(&spec, &args, start, acc, extra);
 }
